@@ -233,3 +233,24 @@ Theorem C15_block_shared_rotation_refuted :
   (exists p0 r0 t0 p1 r1 t1, rt_block_shared2 p0 r0 t0 p1 r1 t1 <> rt_rows2 p0 r0 t0 p1 r1 t1).
 Proof. exact block_shared_rotation_refuted. Qed.
 Print Assumptions C15_block_shared_rotation_refuted.
+
+(* ---- Wave 11: Pose.from_quat normalises its argument (scipy's Rotation.from_quat): any positive or negative multiple
+        of a non-zero quaternion gives the same pose, its matrix is a rotation for EVERY non-zero quaternion, and
+        inverse undoes forward.  (The zero quaternion is rejected by scipy: ValueError.) *)
+Theorem C15_from_quat_normalises :
+  (forall s u t, 0 < s -> qnorm2 u <> 0 -> pose_from_quat (qscale s u) t = pose_from_quat u t) /\
+  (forall s u t, s < 0 -> qnorm2 u <> 0 -> pose_from_quat (qscale s u) t = pose_from_quat u t) /\
+  (forall u t, qnorm2 u <> 0 -> rotation (pR (pose_from_quat u t))) /\
+  (forall u t, qnorm2 u <> 0 -> forall x,
+     inv_rotate_translate (pose_from_quat u t) (rotate_translate (pose_from_quat u t) x) = x /\
+     rotate_translate (pose_from_quat u t) (inv_rotate_translate (pose_from_quat u t) x) = x).
+Proof. exact from_quat_normalises. Qed.
+Print Assumptions C15_from_quat_normalises.
+
+(* the unit-quaternion formula applied to a non-unit quaternion ((0,0,1,1)) is not orthogonal and its transpose does
+   not undo it: a from_quat that skips the normalisation violates the inverse clause *)
+Theorem C15_unnormalised_quat_matrix_refuted :
+  exists u, qnorm2 u <> 0 /\ ~ orthogonal (quat_mat u) /\
+    exists x, inv_rotate_translate (Pose (quat_mat u) vzero) (rotate_translate (Pose (quat_mat u) vzero) x) <> x.
+Proof. exact unnormalised_quat_matrix_refuted. Qed.
+Print Assumptions C15_unnormalised_quat_matrix_refuted.
